@@ -1,11 +1,12 @@
 #define soft softAes
 #include "ah.c"
 size_t nondet_size(void); uint8_t nondet_u8(void);
-/* progress obligations (contracts enforced for every size; buffer = base pointer + extent, see contracts_aes_hash.h) */
-uint8_t* rxv_buf_base; size_t rxv_buf_size;
-static uint8_t buf_obj[16];
-static void setup(void) { rxv_buf_base = buf_obj; rxv_buf_size = nondet_size(); }
+/* progress obligations (contracts enforced for every size; buffer = base pointer + ghost extent, see contracts_aes_hash.h) */
 #ifdef PROGRESS
+uint8_t* rxv_buf_base; size_t rxv_buf_size; size_t rxv_cell; unsigned rxv_cell_loads, rxv_cell_stores, rxv_store_before_load;
+static uint8_t buf_obj[16]; unsigned nondet_unsigned(void);
+static void setup(void) { rxv_buf_base = buf_obj; rxv_buf_size = nondet_size(); rxv_cell = nondet_size();
+	rxv_cell_loads = nondet_unsigned(); rxv_cell_stores = nondet_unsigned(); rxv_store_before_load = nondet_unsigned(); }
 void h_fill1r(void) { void* state; setup(); fillAes1Rx4(state, rxv_buf_size, rxv_buf_base); __CPROVER_assert(0, "canary"); }
 void h_fill4r(void) { void* state; setup(); fillAes4Rx4(state, rxv_buf_size, rxv_buf_base); __CPROVER_assert(0, "canary"); }
 void h_hash1r(void) { void* hash; setup(); hashAes1Rx4(rxv_buf_base, rxv_buf_size, hash); __CPROVER_assert(0, "canary"); }
